@@ -146,3 +146,24 @@ Definition C09_full : Prop :=
 (* PARTIAL: C09_full ("exp K is completely positive", Lindblad's theorem: from C09_K_cCP, and the Pade
    approximant of scipy.linalg.expm) is NOT proved here; the package's own maps are sampled (Choi eigenvalues of the error transfer matrix, liouville_is_cCP of K,
    expm against the Taylor polynomial on intervals) in tools/ffv/props/c09.py.                       *)
+
+(* ------------------------------------------------------------------------------------------------
+   Semantic tie of numeric.calculate_cumulant_function, general branch (Proofs/KernelTieC09.v; docs/notes/kernel-tie.md): the
+   terms translated on every run from the CURRENT Python body by tools/kernel_extract.py (the guards, the eight
+   oe.contract('...kl,<pqrs>->...ij', ..) contractions with their signs, /2, .real) ARE cumulant_general_fn.
+   ------------------------------------------------------------------------------------------------ *)
+From FF Require Import Extracted.Kernels Proofs.KernelTieC09.
+
+Theorem C09_kernels_translated : kernel_untranslated_C09 = nil.
+Proof. exact kernels_translated_C09. Qed.
+
+Theorem C09_kernel_cumulant_general_is_source : forall n (Tr : nat -> nat -> nat -> nat -> C (T:=R)) (G D : RM (T:=R)) a b i j,
+  cumulant_general_fn RO n Tr false G D i j =
+  cumulant_general_src RO n (fun _ _ k l => rmget RO G k l) Tr a b i j.
+Proof. exact cumulant_general_is_source. Qed.
+Print Assumptions C09_kernel_cumulant_general_is_source.
+
+Theorem C09_kernel_cumulant_general2_is_source : forall n (Tr : nat -> nat -> nat -> nat -> C (T:=R)) (G D : RM (T:=R)) a b i j,
+  cumulant_general_fn RO n Tr true G D i j =
+  cumulant_general2_src RO n (fun _ _ k l => rmget RO G k l) (fun _ _ k l => rmget RO D k l) Tr a b i j.
+Proof. exact cumulant_general2_is_source. Qed.
